@@ -9,6 +9,7 @@ from typing import Iterable
 from typing import Iterator
 from typing import List
 from typing import Optional
+from typing import Set
 from typing import Tuple
 
 from sa.flow import Domain
@@ -338,3 +339,77 @@ def resolved(fn_node: ast.AST, e: Optional[ast.expr], only=None) -> Optional[ast
         if not x.changed:
             break
     return out  # type: ignore[return-value]
+
+
+def shared_memo_stores(ctx, fn: FuncInfo) -> List[Tuple[ast.AST, str, List[str]]]:  # type: ignore[no-untyped-def]
+    """Stores into a container that outlives the call - a class-level or module-level dict / list / set, reached as
+    `self.NAME[...]`, `cls.NAME[...]`, `Class.NAME[...]` or a module global - whose key does not mention every
+    parameter the function reads: a memo that gives one argument combination the answer computed for another.
+    Returns (store node, container, parameters missing from the key).  A key that names all of them (a correctly
+    keyed cache) is not reported."""
+    node = fn.node
+    params = [a.arg for a in node.args.args + node.args.kwonlyargs + node.args.posonlyargs if a.arg not in ("self", "cls")]
+    read = {n.id for n in ast.walk(node) if isinstance(n, ast.Name) and isinstance(n.ctx, ast.Load) and n.id in params}
+    class_level: Set[str] = set()
+    if fn.cls is not None:
+        for c in [fn.cls] + [ctx.repo.classes[q] for q in ctx.repo.mro(fn.cls) if q in ctx.repo.classes]:
+            for st in c.node.body:
+                tg = st.targets[0] if isinstance(st, ast.Assign) and len(st.targets) == 1 else (st.target if isinstance(st, ast.AnnAssign) else None)
+                if isinstance(tg, ast.Name) and isinstance(getattr(st, "value", None), (ast.Dict, ast.List, ast.Set, ast.Call)):
+                    class_level.add(tg.id)
+        # an attribute the constructor assigns is per instance
+        for c in [fn.cls]:
+            init = c.methods.get("__init__")
+            if init is not None:
+                for n in ast.walk(init.node):
+                    if isinstance(n, ast.Attribute) and isinstance(n.ctx, ast.Store) and path_of(n.value) == "self":
+                        class_level.discard(n.attr)
+    module_level = {k for k, v in fn.module.assigns.items() if isinstance(v, (ast.Dict, ast.List, ast.Set)) or (
+        isinstance(v, ast.Call) and callee_name(v) in ("dict", "list", "set", "OrderedDict", "defaultdict", "WeakValueDictionary"))}
+    local_stores = {n.id for n in ast.walk(node) if isinstance(n, ast.Name) and isinstance(n.ctx, ast.Store)}
+    out: List[Tuple[ast.AST, str, List[str]]] = []
+
+    def container(e: ast.expr) -> Optional[str]:
+        if isinstance(e, ast.Attribute) and isinstance(e.value, ast.Name) and e.attr in class_level and (
+                e.value.id in ("self", "cls") or (fn.cls is not None and e.value.id == fn.cls.name)):
+            return f"{e.value.id}.{e.attr}"
+        if isinstance(e, ast.Name) and e.id in module_level and e.id not in local_stores and e.id not in params:
+            return e.id
+        return None
+
+    def key_params(k: ast.expr) -> Set[str]:
+        full = expand_locals(node, k, depth=4)
+        return {n.id for n in ast.walk(full) if isinstance(n, ast.Name) and n.id in params}
+
+    def looked_up(cont_node: ast.expr, key: ast.expr) -> bool:
+        # a memo is consulted before it is filled: `k in T`, `T.get(k)`, `T[k]` read under the same key
+        want, k_ = ast.dump(cont_node), ast.dump(key)
+        for m in ast.walk(node):
+            if (isinstance(m, ast.Compare) and len(m.ops) == 1 and isinstance(m.ops[0], (ast.In, ast.NotIn)) and ast.dump(m.comparators[0]) == want
+                    and ast.dump(m.left) == k_):
+                return True
+            if (isinstance(m, ast.Call) and isinstance(m.func, ast.Attribute) and m.func.attr in ("get", "setdefault") and ast.dump(m.func.value) == want
+                    and m.args and ast.dump(m.args[0]) == k_):
+                return True
+            if isinstance(m, ast.Subscript) and isinstance(m.ctx, ast.Load) and ast.dump(m.value) == want and ast.dump(m.slice) == k_:
+                return True
+        return False
+
+    for n in ast.walk(node):
+        if isinstance(n, ast.Subscript) and isinstance(n.ctx, ast.Store):
+            c = container(n.value)
+            if c is not None:
+                missing = sorted(read - key_params(n.slice))
+                if missing:
+                    out.append((n, c, missing))
+                elif not looked_up(n.value, n.slice):
+                    # not a memo at all: every call overwrites an entry that other instances / calls read
+                    out.append((n, c, []))
+        elif isinstance(n, ast.Call) and isinstance(n.func, ast.Attribute) and n.func.attr in ("setdefault", "append", "add", "update", "insert", "extend"):
+            c = container(n.func.value)
+            if c is not None:
+                key = n.args[0] if n.args and n.func.attr == "setdefault" else None
+                missing = sorted(read - (key_params(key) if key is not None else set()))
+                if missing or key is None:
+                    out.append((n, c, missing))
+    return out
